@@ -606,6 +606,25 @@ func init() {
 			}
 		}
 	}
+	// walk-mut: corrupted programs (a parser that wrongly accepts one hands Walk a tree with holes)
+	families["walk-mut"] = func(r *rng, n int, emit emitFn) {
+		g := &pgen{r: r, noLayout: true}
+		dangling := []string{"T | where a + * b", "T | where a == - * 2", "T | where a or and b", "T | where a - / b", "T | join (U) on $left.a == * $right.b",
+			"T | extend x = a + * b, c", "T | sort by a + * b desc", "T | summarize count() by a or and b", "T | where f(a + * b)", "T | where a in (b + * c)", "T | top 3 by a < * b", "T | where (a and == b)"}
+		for i := 0; i < n; i++ {
+			var src string
+			if r.chance(1, 6) {
+				src = pick(r, dangling)
+			} else {
+				src = mutate(r, g.program(1+r.intn(3)))
+			}
+			m := "-1"
+			if r.chance(1, 2) {
+				m = fmt.Sprint(r.intn(30))
+			}
+			emit(hx(src), m)
+		}
+	}
 	families["lit"] = func(r *rng, n int, emit emitFn) {
 		digits := "0123456789"
 		for i := 0; i < n; i++ {
